@@ -11,6 +11,7 @@ import (
 	"github.com/btcsuite/btcd/chaincfg/chainhash"
 	"github.com/btcsuite/btcd/txscript"
 	"github.com/btcsuite/btcd/wire"
+	"github.com/vulpemventures/go-elements/elementsutil"
 	"github.com/vulpemventures/go-elements/transaction"
 )
 
@@ -342,4 +343,21 @@ func RunWitnessScript(script []byte, stack [][]byte, sigHash func(txscript.SigHa
 		return errors.New("script evaluated to false")
 	}
 	return nil
+}
+
+func plainLiquidSpend(txid string, vout uint32) string {
+	h, err := chainhash.NewHashFromStr(txid)
+	if err != nil {
+		return ""
+	}
+	t := transaction.NewTx(2)
+	t.AddInput(transaction.NewTxInput(h[:], vout))
+	asset := append([]byte{0x01}, bytes.Repeat([]byte{0x11}, 32)...)
+	v, _ := elementsutil.ValueToBytes(1000)
+	t.AddOutput(transaction.NewTxOutput(asset, v, []byte{0x00, 0x14, 1, 2, 3, 4, 5, 6, 7, 8, 9, 10, 11, 12, 13, 14, 15, 16, 17, 18, 19, 20}))
+	s, err := t.ToHex()
+	if err != nil {
+		return ""
+	}
+	return s
 }
